@@ -587,6 +587,7 @@ func doMain(spec *Spec, tier string, seed uint64, nruns int) int {
 	var knownLines []string
 	nviol := 0
 	exit := 0
+	unconfirmed := 0
 	for _, v := range total.Violations {
 		if f := kf.Match(v.Property, v.Key); f != nil {
 			if !seenKnown[f.Key] {
@@ -637,8 +638,11 @@ func doMain(spec *Spec, tier string, seed uint64, nruns int) int {
 			}
 		}
 		if code != 1 {
+			// never reported as a violation; the run ends with exit 2 unless
+			// another violation of this run is confirmed (then that one decides)
 			fmt.Fprintf(os.Stderr, "HARNESS-ERROR property=%s violation (class %s, key %s) did not reproduce from %s in a fresh process (exit %d): %s\n%s\n", spec.Property, v.Class, v.Key, path, code, v.Detail, string(outb))
-			return 2
+			unconfirmed++
+			continue
 		}
 		fmt.Printf("VIOLATION property=%s replay=%s\n", spec.Property, path)
 		fmt.Printf("  class=%s key=%s\n  %s\n", v.Class, v.Key, v.Detail)
@@ -650,6 +654,9 @@ func doMain(spec *Spec, tier string, seed uint64, nruns int) int {
 		return 2
 	}
 	fmt.Printf("property=%s tier=%s runs=%d evaluations=%d distinct=%d violations=%d known=%d wall=%.1fs\n", spec.Property, tier, total.Runs, total.Evaluations, len(total.dset), nviol, len(knownLines), wall)
+	if exit == 0 && unconfirmed > 0 {
+		return 2
+	}
 	return exit
 }
 
